@@ -232,3 +232,10 @@ U("c02_definition_block_retagged", ["C02", "C01"], "h_defblock", ["C02/defblock.
   bounds={"definition kinds": "all five", "label": "directly under the block or inside a BLOCK_PARA, with or without a following token"},
   functions=["process_definition_block", "footnote_free"], callees={"footnote_new, definition_extract, clean_string_from_range, strip_leading_whitespace, stack_push": "contract stubs (any answer)", "memmove/strlen": "byte-loop models", "char_is_whitespace": "body"},
   min_obligations=5, timeout=300, cost=8, assumptions=[NOFAIL])
+
+# ---- table_has_caption answers true only for a paragraph that holds nothing but the caption (finding 35: "[Cap] more text" lost its text; fixed in /repo 615b0d3)
+U("c02_table_has_caption_only_caption", ["C02"], "h_has_caption", ["C02/has_caption.c"], ["writer.c"], plain=True, lib=(), kind="finite",
+  defines=["-DI18N_DISABLED=1"],
+  pre_instrument=["--remove-function-body-regex", "^(?!table_has_caption$|h_has_caption$|mk$|verif_.*$|__CPROVER.*$).*"],
+  cbmc_flags=["--unwind", "5", "--unwinding-assertions"], bounds={"paragraph": "caption bracket followed by 0..3 tokens out of {PAIR_BRACKET, TEXT_PLAIN, TEXT_NL, TEXT_LINEBREAK}"},
+  functions=["table_has_caption"], callees={}, min_obligations=3, timeout=120, cost=3, assumptions=[NOFAIL])
